@@ -265,7 +265,9 @@ type Sim struct {
 	// InCallback runs synchronously inside OnTableStateUpdated on the engine's
 	// goroutine. It must not draw; whatever it does is planned beforehand.
 	InCallback func(s *Sim, name string, t *pokertable.Table)
-	FenceWait  time.Duration // overrides the wait for the post-settlement fence when > 0
+	// InCallbackLive additionally receives the engine's live table (as real callers do).
+	InCallbackLive func(s *Sim, name string, live, clone *pokertable.Table)
+	FenceWait      time.Duration // overrides the wait for the post-settlement fence when > 0
 
 	q        *queue
 	finished int32
@@ -283,6 +285,8 @@ type Sim struct {
 	Trace      []string // abstract trace for fingerprints
 	LabelSet   map[string]bool
 	CreateErr  error
+	SkipAct    bool // the current turn was already played by a hook
+	Resync     bool // skip queued decision snapshots that are older than the engine's current state
 	deckMode   int
 	deckSeed   int
 }
@@ -338,6 +342,11 @@ func New(ch *choose.Recorder, cfg Config, hooks Hooks) *Sim {
 			return
 		}
 		c, raw := cloneTable(t)
+		// fan-out hooks see the live table before the test goroutine learns about the
+		// snapshot (otherwise the driver's next move races with them)
+		if f := s.InCallbackLive; f != nil {
+			f(s, name, t, c)
+		}
 		s.q.push(&Event{Kind: "state", Name: name, Table: c, Raw: raw})
 		// pre-planned actions that must run inside the callback (on the engine's
 		// goroutine), e.g. "close the table during the continue delay"
@@ -566,6 +575,18 @@ func (s *Sim) WaitFor(timeout time.Duration, pred func(ev *Event) bool) *Event {
 			return ev
 		}
 	}
+}
+
+// PushSnapshot enqueues a synthetic GameUpdated event carrying the engine's current
+// table (used after a hook consumed the queue, e.g. a concurrent burst, so that the
+// driver finds the decision point the engine is now waiting at).
+func (s *Sim) PushSnapshot() {
+	c, raw := cloneTable(s.TE.GetTable())
+	name := pokertable.TableStateEvent_GameUpdated
+	if c.State.Status == pokertable.TableStateStatus_TableGameSettled {
+		name = pokertable.TableStateEvent_GameSettled
+	}
+	s.q.push(&Event{Kind: "state", Name: name, Table: c, Raw: raw})
 }
 
 // EventsTotal is the number of events ever enqueued (for "nothing happened" checks).
